@@ -271,7 +271,18 @@ def check(P: Project, R: Report) -> None:
         g_method = f"getattr({m}, 'method', None) == 'notifications/progress'"
         prm = f"(getattr({m}, 'params', None) or {{}})"
         g_token = f"{prm}.get('progressToken') == {tok_param}"
-        R.ob("R5", "callback guarded by the progress method", g_method in lits, f"{wrel}:{cb.lineno}", f"literals at the call: {sorted(l[:70] for l in lits)}")
+        def names_progress(l_):
+            # `… == MessageMethod.NOTIFICATION_PROGRESS` / a module constant: the same string by another name
+            pre = f"getattr({m}, 'method', None) == "
+            if not l_.startswith(pre):
+                return False
+            try:
+                v_ = try_fold(P, wait.module, ast.parse(l_[len(pre):], mode="eval").body)
+            except SyntaxError:
+                return False
+            return v_ == "notifications/progress" or getattr(v_, "value", None) == "notifications/progress"
+
+        R.ob("R5", "callback guarded by the progress method", g_method in lits or any(names_progress(l_) for l_ in lits), f"{wrel}:{cb.lineno}", f"literals at the call: {sorted(l[:70] for l in lits)}")
         R.ob("R5", "callback guarded by equality with this request's token", g_token in lits, f"{wrel}:{cb.lineno}", f"expected `{g_token}` among {sorted(l[:70] for l in lits)}")
         want = [f"{prm}.get('progress', 0)", f"{prm}.get('total')", f"{prm}.get('message')"]
         R.ob("R5", "callback receives progress, total, message of that notification", argtxt.split("|") == want, f"{wrel}:{cb.lineno}", f"arguments {argtxt}",
